@@ -69,10 +69,17 @@ def process_batch(ctx, rep, owned, n, salt, cmds_after=6, **kw):
             if c['c'] in ('quit', 'resume'):
                 continue
             s['events'].append({'in': c})
+        # (a matcher text with a character a command line might take for its own: `;`)
+        import mrender
+        s['events'].append({'in': {'e': 'cmd', 'c': ctx.rnd.choice(['list', 'filter']), 'hasm': True, 'hasarg': True, 'ok': True, 'cap': -1, 'caperr': False,
+                                   'ast': mrender.pat_full(args=mrender.args([mrender.arg({'k': 'str', 's': 'text/plain;charset=utf-8'})])),
+                                   'spell': ['', '', []]}})
+        s['events'].append({'in': {'e': 'cmd', 'c': 'list', 'hasm': False, 'ok': True, 'cap': 3, 'caperr': False}})
         render = {'dialect': ctx.rnd.choice(['old', 'new'])}
         rep.case('process:' + json.dumps(sessionprop.inputs_only(s), sort_keys=True))
-        d = e2.compare(s, render)
+        mode = 'run' if k % 3 == 2 else 'file'
+        d = e2.compare(s, render, mode=mode)
         if d is not None and (d[0] & set(owned) or 'crash' in d[0]):
-            rep.violation('process:' + ','.join(sorted(d[0])), 'as a real process (main.py -l, commands on stdin): ' + d[1],
-                          {'kind': 'process-session', 'trace': sessionprop.inputs_only(s), 'render': render})
+            rep.violation('process:' + ','.join(sorted(d[0])), 'as a real process (main.py %s, commands on stdin): ' % ('-r PROGRAM' if mode == 'run' else '-l FILE') + d[1],
+                          {'kind': 'process-session', 'trace': sessionprop.inputs_only(s), 'render': render, 'mode': mode})
     rep.extra['process_sessions'] = rep.extra.get('process_sessions', 0) + n
